@@ -52,6 +52,12 @@ theorem pix2sky_is_fits_row_column (W : Wcs ℝ) (x y : ℝ) : pix2sky W x y = W
 theorem pix2sky_origin0 (W : Wcs ℝ) (x y : ℝ) : pix2sky W x y = allPix2World W (y - 1) (x - 1) 0 :=
   Aegean.C16.pix2sky_origin0 W x y
 
+/-- **both directions use the header's full WCS**: every pixel<->world call in `pix2sky` and in `sky2pix` is astropy's
+    `all_*` entry point (core + SIP + look-up tables), none the core-only `wcs_*` one — regenerated from the source; this is
+    what makes the single abstract `Wcs` (with ONE pair `p2w`/`w2p`) the right model for a header with distortions -/
+theorem conversions_use_full_wcs : (Gen.C16.pix2skyEntryAll : ℝ) = 1 ∧ (Gen.C16.sky2pixEntryAll : ℝ) = 1 :=
+  ⟨pix2skyEntryAll_eq, sky2pixEntryAll_eq⟩
+
 /-- `sky2pix` returns `(row, column)`: the WCS's `(p1, p2)` transposed, unshifted -/
 theorem sky2pix_is_fits_row_column (W : Wcs ℝ) (ra dec : ℝ) :
     sky2pix W ra dec = ((W.w2p ra dec).2, (W.w2p ra dec).1) :=
